@@ -16,11 +16,12 @@ exactly the covered packets, and for each covered packet `j` the independent dec
 batch without `j`, must return packet `j` byte for byte; every media packet must be covered
 when at least one FEC packet was requested.  Any failure is printed (the implementation never
 prints such a line, so a failure is a mismatch). -/
-def specCheck (c : Coverage) (f baseSn : Nat) : List String := Id.run do
+def specCheck (c : Coverage) (f baseSn : Nat) (bad : List Nat := []) : List String := Id.run do
   let mut out : Array String := #[]
   let n := c.numMedia
   for i in List.range f do
-    match fecPayload c i baseSn with
+    -- a repair packet that covers a packet pion/rtp could not marshal is not emitted: nothing to decode
+    match (if c.coversBad bad i then none else fecPayload c i baseSn) with
     | none => pure ()
     | some pl =>
       let cover := c.coveredBy i
@@ -41,32 +42,48 @@ def specCheck (c : Coverage) (f baseSn : Nat) : List String := Id.run do
         out := out.push s!"spec-FAIL uncovered={j}"
   return out.toList
 
-/-- flexenc: `new pt= ssrc=` | `batch fec= pkts=`. -/
+/-- `bad=<pos>:<kind>,…`: the positions of the batch whose packet VALUE pion/rtp cannot marshal (the kind says how the
+harness damages the well-formed packet given in `pkts`; the model only needs the position). -/
+def parseBad (s : Option String) : Option (List Nat) :=
+  match s with
+  | none => some []
+  | some "-" => some []
+  | some t => (t.splitOn ",").mapM fun e => ((e.splitOn ":").headD "").toNat?
+
+def setEnc (k : Nat) (e : Encoder) : List (Nat × Encoder) → List (Nat × Encoder)
+  | [] => [(k, e)]
+  | (k', e') :: r => if k' = k then (k, e) :: r else (k', e') :: setEnc k e r
+
+/-- flexenc: `new pt= ssrc= [enc=<k>]` | `batch fec= pkts= [enc=<k>] [bad=<pos>:<kind>,…]`.
+Several encoders (`enc=`, default 0) live side by side in one case: they share nothing but the package-global pool
+of scratch buffers, so each one's repair packets are what they would be alone. -/
 def encComponent : Component where
-  σ := Option Encoder
-  init := none
+  σ := List (Nat × Encoder)
+  init := []
   step := fun s ts =>
     match ts with
     | "new" :: rest =>
       let fs := fields rest
-      match getNat fs "pt", getNat fs "ssrc" with
-      | some pt, some ssrc =>
-        if pt ≤ 255 ∧ ssrc ≤ 4294967295 then (some (Encoder.new pt ssrc), []) else (s, ["bad-op"])
-      | _, _ => (s, ["bad-op"])
+      match getNat fs "pt", getNat fs "ssrc", (getNat fs "enc").getD 0 with
+      | some pt, some ssrc, k =>
+        if pt ≤ 255 ∧ ssrc ≤ 4294967295 then (setEnc k (Encoder.new pt ssrc) s, []) else (s, ["bad-op"])
+      | _, _, _ => (s, ["bad-op"])
     | "batch" :: rest =>
       let fs := fields rest
-      match s, getNat fs "fec", (lookup fs "pkts").bind parsePkts with
-      | some e, some f, some media =>
+      let k := (getNat fs "enc").getD 0
+      match s.lookup k, getNat fs "fec", (lookup fs "pkts").bind parsePkts, parseBad (lookup fs "bad") with
+      | some e, some f, some media, some bad =>
         if f > 110 then (s, ["bad-op"]) else
-        let (e', r) := e.encodeFec media f
+        if bad.any (· ≥ media.length) then (s, ["bad-op"]) else
+        let (e', r) := e.encodeFecBad media f bad
         match r with
-        | none => (some e', ["nil"])
+        | none => (setEnc k e' s, ["nil"])
         | some fecs =>
           let chk := match e'.cov with
-            | some c => specCheck c f (seqOf (media.getD 0 []))
+            | some c => specCheck c f (seqOf (media.getD 0 [])) bad
             | none => []
-          (some e', s!"fecs n={fecs.length}" :: fecs.map showFec ++ chk)
-      | _, _, _ => (s, ["bad-op"])
+          (setEnc k e' s, s!"fecs n={fecs.length}" :: fecs.map showFec ++ chk)
+      | _, _, _, _ => (s, ["bad-op"])
     | _ => (s, ["bad-op"])
 
 /-- length of the RTP payload proper (without header, CSRC, extension and padding): what the
@@ -88,7 +105,7 @@ def showOut (ssrc pt seq : Nat) (b : Bytes) : String :=
 without them (stream, payload type, sequence number, outcome) and the harness decodes every repair packet against
 the packets as they reached the writer. -/
 def intComponent : Component where
-  σ := Option Icpt
+  σ := Option (Icpt × List Nat)      -- the stream, and the positions of the batch being collected that cannot be marshalled
   init := none
   step := fun s ts =>
     match ts with
@@ -97,24 +114,33 @@ def intComponent : Component where
       match getNat fs "n", getNat fs "f", getNat fs "ssrc", getNat fs "fpt", getNat fs "fssrc" with
       | some n, some f, some ssrc, some fpt, some fssrc =>
         if n < 1 ∨ n > 200 ∨ f > 110 ∨ fpt > 255 ∨ ssrc > 4294967295 ∨ fssrc > 4294967295 then (s, ["bad-op"])
-        else (some (Icpt.new n f ssrc fpt fssrc), [])
+        else (some (Icpt.new n f ssrc fpt fssrc, []), [])
       | _, _, _, _, _ => (s, ["bad-op"])
     | "w" :: rest =>
       let fs := fields rest
       match s, (lookup fs "pkt").bind hexBytes, natList ((lookup fs "fail").getD "-") with
-      | some st, some p, some fail =>
-        let (st', media, fecs) := st.write p
+      | some (st, bad0), some p, some fail =>
+        -- `bad=<kind>`: the packet VALUE written is a damaged form of `pkt` that pion/rtp cannot marshal
+        let isBad := (lookup fs "bad").isSome
+        let mine := st.active && ssrcOf p == st.mediaSsrc
+        let bad := if isBad && mine then bad0 ++ [st.buffer.length] else bad0
+        let (st', media, fecs) := st.writeBad p bad
+        let bad' := if st'.buffer.isEmpty then [] else bad
         let showC := fun (ssrc pt seq : Nat) (b : Bytes) =>
           if lookup fs "wire" == some "1" then s!"out ssrc={ssrc} pt={pt} seq={seq}" else showOut ssrc pt seq b
-        let calls := media.map (fun m => showC (ssrcOf m) (m.getD 1 0 % 128) (seqOf m) m)
+        let showM := fun (m : Bytes) =>
+          match lookup fs "bad" with
+          | some k => s!"out ssrc={ssrcOf m} pt={m.getD 1 0 % 128} seq={seqOf m} bad={k}"
+          | none => showC (ssrcOf m) (m.getD 1 0 % 128) (seqOf m) m
+        let calls := media.map showM
           ++ fecs.map (fun q => showC q.ssrc q.pt q.seq q.marshal)
         let (oks, n, errs) := writeOutcome calls.length fail (payloadLen p)
         let chk :=
           if fecs.isEmpty then [] else
           match st'.enc.cov with
-          | some c => specCheck c st.numFec (seqOf (c.media.getD 0 []))
+          | some c => specCheck c st.numFec (seqOf (c.media.getD 0 [])) bad
           | none => []
-        (some st',
+        (some (st', bad'),
           (calls.zip oks).map (fun (l, ok) => l ++ (if ok then " res=ok" else " res=fail"))
           ++ chk
           ++ [s!"ret n={n} err={errs}"])
